@@ -120,6 +120,30 @@ impl HttpReq {
         ensures match r { Ok(_) => set_query_s(*old(self), *query) == Ok::<HttpReq, HttpTypesError>(*final(self)), Err(e) => set_query_s(*old(self), *query) == Err::<HttpReq, HttpTypesError>(e) && *final(self) == *old(self) },
     { unimplemented!() }
 }
+/// http_types::headers::HeaderValues (opaque)
+#[verifier::external_body]
+pub struct HeaderValues { _p: u8 }
+/// the header transformers of http-types (uninterpreted; N = impl Into<HeaderName>, V = impl ToHeaderValues)
+pub uninterp spec fn insert_header_s<N, V>(r: HttpReq, name: N, values: V) -> HttpReq;
+pub uninterp spec fn append_header_s<N, V>(r: HttpReq, name: N, values: V) -> HttpReq;
+pub uninterp spec fn remove_header_s<N>(r: HttpReq, name: N) -> HttpReq;
+/// the values stored under that name before the call
+pub uninterp spec fn header_before_s<N>(r: HttpReq, name: N) -> Option<HeaderValues>;
+impl HttpReq {
+    // ASSUMED (http-types Request::insert_header / append_header / remove_header): one state transformer each
+    #[verifier::external_body]
+    pub fn insert_header<N, V>(&mut self, name: N, values: V) -> (r: Option<HeaderValues>)
+        ensures *final(self) == insert_header_s(*old(self), name, values), r == header_before_s(*old(self), name),
+    { unimplemented!() }
+    #[verifier::external_body]
+    pub fn append_header<N, V>(&mut self, name: N, values: V)
+        ensures *final(self) == append_header_s(*old(self), name, values),
+    { unimplemented!() }
+    #[verifier::external_body]
+    pub fn remove_header<N>(&mut self, name: N) -> (r: Option<HeaderValues>)
+        ensures *final(self) == remove_header_s(*old(self), name), r == header_before_s(*old(self), name),
+    { unimplemented!() }
+}
 /// per-request middleware (opaque)
 #[verifier::external_body]
 pub struct MwVec { _p: u8 }
@@ -151,6 +175,30 @@ impl Request {
             r is Ok ==> set_query_s(old(self).req, *query) == Ok::<HttpReq, HttpTypesError>(final(self).req), // [C14/Request::set_query/the-query-the-app-gave-encoded-by-http-types-once]
             r is Err ==> set_query_s(old(self).req, *query) is Err && final(self).req == old(self).req,
             final(self).middleware == old(self).middleware,
+//@end
+//@extract id=Request::insert_header file=crux_http/src/request.rs within="impl Request" item="fn insert_header" props=C14
+//@expect pub fn insert_header( &mut self, name: impl Into<HeaderName>, values: impl ToHeaderValues, ) -> Option<HeaderValues>
+//@sig pub fn insert_header<N, V>(&mut self, name: N, values: V) -> (r: Option<HeaderValues>)
+//@contract
+        ensures final(self).req == insert_header_s(old(self).req, name, values) && r == header_before_s(old(self).req, name) && final(self).middleware == old(self).middleware, // [C14/Request::insert_header/exactly-this-name-and-these-values-replace-the-header-once-nothing-else-touched]
+//@end
+//@extract id=Request::append_header file=crux_http/src/request.rs within="impl Request" item="fn append_header" props=C14
+//@expect pub fn append_header(&mut self, name: impl Into<HeaderName>, values: impl ToHeaderValues)
+//@sig pub fn append_header<N, V>(&mut self, name: N, values: V)
+//@contract
+        ensures final(self).req == append_header_s(old(self).req, name, values) && final(self).middleware == old(self).middleware, // [C14/Request::append_header/exactly-these-values-are-appended-under-this-name-once-nothing-else-touched]
+//@end
+//@extract id=Request::remove_header file=crux_http/src/request.rs within="impl Request" item="fn remove_header" props=C14
+//@expect pub fn remove_header(&mut self, name: impl Into<HeaderName>) -> Option<HeaderValues>
+//@sig pub fn remove_header<N>(&mut self, name: N) -> (r: Option<HeaderValues>)
+//@contract
+        ensures final(self).req == remove_header_s(old(self).req, name) && r == header_before_s(old(self).req, name) && final(self).middleware == old(self).middleware, // [C14/Request::remove_header/exactly-this-header-is-removed-nothing-else-touched]
+//@end
+//@extract id=Request::set_header file=crux_http/src/request.rs within="impl Request" item="fn set_header" props=C14
+//@expect pub fn set_header(&mut self, key: impl Into<HeaderName>, value: impl ToHeaderValues)
+//@sig pub fn set_header<N, V>(&mut self, key: N, value: V)
+//@contract
+        ensures final(self).req == insert_header_s(old(self).req, key, value) && final(self).middleware == old(self).middleware, // [C14/Request::set_header/exactly-this-name-and-value-replace-the-header-once-nothing-else-touched]
 //@end
 //@extract id=Request::body_json file=crux_http/src/request.rs within="impl Request" item="fn body_json" props=C14
 //@expect pub fn body_json(&mut self, json: &impl Serialize) -> crate::Result<()>
@@ -194,6 +242,16 @@ pub mod command_api {
     pub struct RequestBuilder { pub req: Option<Request>, pub rest: Rest }
 
     impl RequestBuilder {
+//@extract id=command_api::header file=crux_http/src/command.rs within="impl<Effect, Event, ExpectBody> RequestBuilder<Effect, Event, ExpectBody>" item="fn header" props=C14
+//@expect pub fn header(mut self, key: impl Into<HeaderName>, value: impl ToHeaderValues) -> Self
+//@sig pub fn header<N, V>(self, key: N, value: V) -> (r: Self)
+//@contract
+            requires self.req is Some,
+            ensures r.req == Some(Request { req: insert_header_s(self.req->Some_0.req, key, value), middleware: self.req->Some_0.middleware }) && r.rest == self.rest, // [C14/command_api-header/exactly-this-name-and-value-set-once-replacing-not-adding-nothing-else-touched]
+//@rule X19.mut-self * s/\bself\b/this/
+//@entry
+            let mut this = self;
+//@end
 //@extract id=command_api::body file=crux_http/src/command.rs within="impl<Effect, Event, ExpectBody> RequestBuilder<Effect, Event, ExpectBody>" item="fn body" props=C14
 //@expect pub fn body(mut self, body: impl Into<Body>) -> Self
 //@sig pub fn body<B: IntoBody>(self, body: B) -> (r: Self)
@@ -272,6 +330,16 @@ pub mod capability_api {
     pub struct RequestBuilder { pub req: Option<Request>, pub rest: Rest }
 
     impl RequestBuilder {
+//@extract id=capability_api::header file=crux_http/src/request_builder.rs within="impl<Event, ExpectBody> RequestBuilder<Event, ExpectBody>" item="fn header" props=C14
+//@expect pub fn header(mut self, key: impl Into<HeaderName>, value: impl ToHeaderValues) -> Self
+//@sig pub fn header<N, V>(self, key: N, value: V) -> (r: Self)
+//@contract
+            requires self.req is Some,
+            ensures r.req == Some(Request { req: insert_header_s(self.req->Some_0.req, key, value), middleware: self.req->Some_0.middleware }) && r.rest == self.rest, // [C14/capability_api-header/exactly-this-name-and-value-set-once-replacing-not-adding-nothing-else-touched]
+//@rule X19.mut-self * s/\bself\b/this/
+//@entry
+            let mut this = self;
+//@end
 //@extract id=capability_api::body file=crux_http/src/request_builder.rs within="impl<Event, ExpectBody> RequestBuilder<Event, ExpectBody>" item="fn body" props=C14
 //@expect pub fn body(mut self, body: impl Into<Body>) -> Self
 //@sig pub fn body<B: IntoBody>(self, body: B) -> (r: Self)
